@@ -119,6 +119,25 @@ CHECKS = {
    note="json-gold's context processing and key classification are modelled for the generated subset (@reverse term definitions, @import, container maps with object values: 'unsupported'). Known findings D26, D27, D28 (dependency).",
    technique="Coq proof over a subset model of JSON-LD key expansion + option plumbing (abstract backend) + per-run model/implementation differential",
    design="5 C15"),
+ "C10": dict(
+   text="Theorems (Properties/C10.v, all closed): C10_agree - for every hasher, datatype and JSON value (bool, number, string) value_to_hash H F dt (raw v) = leaf_value H F dt lex where (lex, dt) is what the "
+        "model of json-gold's native-value conversion to_rdf_lex produces (integrality decided on the IEEE bit pattern by the pure function float_int64); single float hypothesis: a canonical double re-parses "
+        "to a float with the same canonical form (explicit premise, validated on every float of every run); C10_kind (the Value returned with a proof has the Go kind implied by the datatype and hashes to the leaf), "
+        "C10_int_roundtrip, C10_hasher_pinned / C10_pinned_member (a later SetHasher changes no observation of an existing merklizer). Per run ~1400 literals of generated documents and a boundary grid: "
+        "HashValueWithHasher(dt, RawValue(path)) vs proof Value MtEntry vs leaf in tree vs the model in Coq, incl. SetHasher sequences.",
+   note="Known findings D13 family (RawValue indexes the document array, leaves the canonical order): c10-rawvalue-array-order, -repeated, -order-mixed, -node-array-order. strconv.ParseFloat / canonical double are recorded oracles.",
+   technique="Coq proof (standalone hashing = leaf hashing for all values, float formatting abstract) + per-run model/implementation differential",
+   design="5 C10"),
+ "C13": dict(
+   text="Theorems (Properties/C13.v, all closed, no hash-function hypothesis) over a typed-wire abstraction of the gob envelope: C13_roundtrip (for EVERY permutation pi in which Go's map iteration emits "
+        "the entries, unmarshal (marshal pi mz) succeeds with the same tree, documents and flag; via SMT.add_all_perm_ok), C13_obs_eq (same root, hasher, entry set; identical Entry / JSONLDType / Proof results "
+        "for every path and every default hasher), C13_member_proof, C13_entry / C13_entry_identity (single entry, every value kind), C13_tag_sound, C13_given_tree (with a caller tree: success iff its root "
+        "equals the recorded root; tree untouched), C13_count / C13_total (negative or oversized declared count is an error; never panics or diverges on any wire value). Per run: real gob round trips of ~75 merklizers "
+        "(all value kinds incl. negative big integers, times with offsets and nanoseconds), default and custom hashers, with/without caller tree (matching, empty, unrelated), 20 repeated marshals, tampered streams "
+        "(version, count -1 / 2^40 in a child process under RLIMIT_AS, malformed entries), blob aliasing, post-restore SetHasher; wire model evaluated in Coq on the same entries.",
+   note="gob and json byte formats are trusted (typed wire values); RawValue / ResolveDocPath are functions of fields the theorem shows unchanged; aliasing of returned bytes is checked impl-side only.",
+   technique="Coq proof (round trip for every map-iteration permutation, observational equality) + per-run differential on real gob round trips",
+   design="5 C13"),
  "C04": dict(
    text="Theorems (Properties/C04.v) over the executable model of the value-encoding code, for every hasher, lexical form and odd modulus p>=3: "
         "integer types accepted exactly in range and encoded as v / p+v without reduction, injective per type, spelling-independent; booleans; "
